@@ -1,6 +1,7 @@
 package main
 
 import (
+	"bytes"
 	"encoding/hex"
 	"encoding/json"
 	"fmt"
@@ -215,8 +216,77 @@ func probeCmd(args []string) error {
 		r["outsider_spends_A"] = sub
 		out["coinbase_rider_rewrites_account_rule"] = r
 	}
+	// 8. KF_PlayPooledIdUnchecked: a block entry that claims the id of a pooled transaction but carries other content
+	{
+		r, err := w.pooledIdProbe(st)
+		if err != nil {
+			return err
+		}
+		out["play_and_repost_entry_under_pooled_id"] = r
+	}
 	_ = fx.BCName
 	b, _ := json.Marshal(out)
 	fmt.Println(string(b))
 	return nil
+}
+
+// pooledIdProbe: PlayAndRepost and a block entry that claims the id of a pooled transaction.
+func (w *world) pooledIdProbe(st *stats) (map[string]interface{}, error) {
+	r := map[string]interface{}{}
+	t := &aTx{Ver: 3, Init: "k1", Isigs: []aSig{valid("k1")}, Id: "ok", Ins: []aIn{{Own: "k1"}}, Ctr: "none"}
+	h, err := w.concretise(t, "probe-pooled-id")
+	if err != nil {
+		return nil, err
+	}
+	h, _ = wire(h)
+	forged := proto.Clone(h).(*pb.Transaction)
+	forged.TxOutputs[0].ToAddr = []byte(w.name("kx"))
+	n, err := w.node.Clone(w.node.Name + "-pooledid")
+	if err != nil {
+		return nil, err
+	}
+	defer n.Drop()
+	w2 := *w
+	w2.node = n
+	bal := func() map[string]string {
+		return map[string]string{"k1": w2.balance("k1"), "k3": w2.balance("k3"), "kx": w2.balance("kx"), "utxo_total": n.State.GetTotal().String()}
+	}
+	r["balances_before"] = bal()
+	res, why := submitClass(n, h, st)
+	r["honest_tx_k1_pays_k3_SubmitTx"] = res + " " + why
+	l, s := n.Ledger, n.State
+	prev := s.GetLatestBlockid()
+	aw, _ := txn.GenerateAwardTx(w.miner.Address, "0", []byte("award-pooled-id"))
+	blk, err := l.FormatMinerBlock([]*pb.Transaction{aw, forged}, []byte(w.miner.Address), w.miner.Priv, 5000, 0, 0, prev, 0, s.GetTotal(), nil, nil, l.GetMeta().TrunkHeight+1)
+	if err != nil {
+		return nil, err
+	}
+	cs := l.ConfirmBlock(blk, false)
+	r["ConfirmBlock_ok"] = cs.Succ
+	r["PlayAndRepost_err"] = fmt.Sprint(s.PlayAndRepost(blk.Blockid, false, false))
+	r["balances_after_block"] = bal()
+	q, qerr := l.QueryTransaction(h.Txid)
+	if qerr == nil {
+		id, _ := txhash.MakeTransactionID(q)
+		r["confirmed_tx_pays"] = map[string]bool{"k3": string(q.TxOutputs[0].ToAddr) == w.name("k3"), "kx": string(q.TxOutputs[0].ToAddr) == w.name("kx")}
+		r["confirmed_tx_id_is_hash_of_its_content"] = bytes.Equal(id, q.Txid)
+	} else {
+		r["QueryTransaction_err"] = qerr.Error()
+	}
+	// a node that never saw the pooled transaction gets the same block through the sync path
+	n3, err := w.node.Clone(w.node.Name + "-pooledid-peer")
+	if err != nil {
+		return nil, err
+	}
+	defer n3.Drop()
+	blk2 := proto.Clone(blk).(*pb.InternalBlock)
+	cs3 := n3.Ledger.ConfirmBlock(blk2, false)
+	r["other_node_ConfirmBlock_ok"] = cs3.Succ
+	r["other_node_Walk_err"] = fmt.Sprint(n3.State.Walk(blk2.Blockid, false))
+	waitRecover()
+	// the first node rolls the block back (as on a fork switch): the ledger's copy is what gets undone
+	r["rollback_Walk_err"] = fmt.Sprint(s.Walk(prev, false))
+	waitRecover()
+	r["balances_after_rollback"] = bal()
+	return r, nil
 }
